@@ -487,10 +487,41 @@ def r11_5(ctx):
     return r
 
 
+def r11_6(ctx):
+    r = Rule("R11.6", "every written child reaches the children builder: the element and fragment builders hand it the node's own `children`, on every path",
+             "children replaced by an empty list (because a prop is believed to override them) are never evaluated: a call written between the tags does not run")
+    from .influence import flow_of
+    cb = C.role_or_fail(ctx, r, "children_builder")
+    if not cb:
+        return r
+    for role in ("element_builder", "fragment_builder"):
+        b = C.role_or_fail(ctx, r, role)
+        if not b:
+            continue
+        mb = C.mir_of(ctx, b)
+        r.saw(b["path"])
+        n = 0
+        for fb in ctx.facts.mir_family(mb):
+            fl = flow_of(ctx, fb)
+            for i, t in calls(fb):
+                if callee_name(t) != cb["path"] or len(t["args"]) < 2:
+                    continue
+                n += 1
+                srcs = fl.op_sources(t["args"][1])
+                roots = [x for x in srcs if x[0] in ("param", "upvar")]
+                own = [x for x in roots if "children" in x[2] or "children" in str(x[1])]
+                other = [x for x in srcs if x[0] in ("const", "agg", "unknown") or (x[0] in ("param", "upvar") and x not in own)]
+                r.ob("%s: the children builder receives the node's own children" % role + ("" if n == 1 else " #%d" % n), bool(own) and not other, C.mloc(fb, t),
+                     "argument = <node>.children" if own and not other else "the list handed to the children builder can also be %s: on that path the written children are dropped" % sorted(str(x[:2]) for x in other)[:3])
+        if n == 0:
+            r.ob("%s calls the children builder" % role, False, C.mloc(mb, mb), "no call of the children builder: the children of the node are never lowered")
+    return r
+
+
 def rules(ctx):
     from ..engine import only
     from . import c01, c03
-    out = [__import__('vjsx.rules.c10', fromlist=['x']).field_ratchet('evaluation count / order must not depend on earlier elements'), r11_1, r11_2, r11_3, r11_4, r11_5, c03.r03_4,
+    out = [__import__('vjsx.rules.c10', fromlist=['x']).field_ratchet('evaluation count / order must not depend on earlier elements'), r11_1, r11_2, r11_3, r11_4, r11_5, r11_6, c03.r03_4,
            only(c01.r01_1, lambda k: k.startswith(("component predicate", "the Fragment name")), "which hosts are components: only their children are deferred into slot functions")]
     if ctx.tier == "thorough":
         from . import controls
